@@ -421,9 +421,9 @@ func genC08(g *Gen) *Plan {
 			p.Ops = append(p.Ops, sleepOp(pick(g, 300, 1000, 2500, 5000), g.p(0.5)))
 		case x < 19:
 			// a kill is not a barrier: it lands wherever the scheduler starts it
-			p.Ops = append(p.Ops, Op{Kind: OpCrash, Tear: tear})
+			p.Ops = append(p.Ops, Op{Kind: OpCrash, Tear: tear, NoStore: g.p(0.1)})
 		default:
-			p.Ops = append(p.Ops, Op{Kind: OpStop, Barrier: true})
+			p.Ops = append(p.Ops, Op{Kind: OpStop, Barrier: true, NoStore: g.p(0.1)})
 		}
 	}
 	return p
